@@ -72,13 +72,6 @@ def pureRows (w : Worker) (c : Content) : List (Label × Row) → Except Err (Li
       | .error e => .error e
       | .ok ps => .ok ((lr.1, p) :: ps)
 
-def placeFrom (n : Nat) : List (Label × Pickled) → List (Label × Sim)
-  | [] => []
-  | lp :: rest => (lp.1, { cell := n, segs := lp.2.segs, nan := lp.2.nan }) :: placeFrom (n + 1) rest
-
-def placeAll (h : Heap) (ps : List (Label × Pickled)) : Heap × List (Label × Sim) :=
-  (h ++ ps.map (·.2.content), placeFrom h.length ps)
-
 theorem seqScan_char (w : Worker) (c : Content) (cell : Nat) :
     ∀ (rows : List (Label × Row)) (h : Heap), h.read cell = .ok c →
       seqScan w h cell rows =
